@@ -76,7 +76,14 @@ def r_export2(root):
         try: fn = find(t, q)
         except AnalysisError: continue
         inst += 1; bad = []
-        for n in ast.walk(fn):
+        # the function and the module's helpers it calls (an opener / writer extracted into a helper is part of the writer)
+        scope = [fn]; seen_ = {fn.name}
+        for f_ in scope:
+            for c_ in ast.walk(f_):
+                if isinstance(c_, ast.Call) and isinstance(c_.func, ast.Name) and c_.func.id not in seen_ and c_.func.id not in ("metamodel_export", "model_export", "metamodel_export_tofile", "model_export_to_file"):
+                    h_ = next((x_ for x_ in t.body if isinstance(x_, ast.FunctionDef) and x_.name == c_.func.id), None)
+                    if h_ is not None and len(scope) < 12 and any(isinstance(y_, ast.Call) and callee_name(y_) in ("open", "write", "close", "flush") for y_ in ast.walk(h_)): seen_.add(h_.name); scope.append(h_)
+        for n in [x_ for f_ in scope for x_ in ast.walk(f_)]:
             if isinstance(n, ast.With) and any(isinstance(i.context_expr, ast.Call) and callee_name(i.context_expr) == "suppress" for i in n.items): bad.append(n)
             if isinstance(n, ast.Try):
                 for h in n.handlers:
@@ -84,8 +91,9 @@ def r_export2(root):
                     names_ = [ast.unparse(x_) for x_ in (h.type.elts if isinstance(h.type, ast.Tuple) else [h.type])] if h.type is not None else [None]
                     if all(nm_ in ("StopIteration", "KeyError", "IndexError", "LookupError", "AttributeError") for nm_ in names_): continue
                     if not any(isinstance(x, ast.Raise) for x in ast.walk(ast.Module(body=h.body, type_ignores=[]))): bad.append(h)
-        opens = [c for c in calls(fn) if callee_name(c) == "open"]
-        unmanaged = [c for c in opens if not any(isinstance(a_, ast.With) for a_ in ancestors(c))]
+        opens = [c for f_ in scope for c in calls(f_) if callee_name(c) == "open"]
+        # an open() that is returned / yielded by a helper is managed by the caller's with statement
+        unmanaged = [c for c in opens if not any(isinstance(a_, ast.With) for a_ in ancestors(c)) and not (enclosing_func(c) is not fn and any(isinstance(y_, ast.With) and any(isinstance(i_.context_expr, ast.Call) and callee_name(i_.context_expr) == enclosing_func(c).name for i_ in y_.items) for y_ in ast.walk(fn)))]
         ob("C31", "C31.c", E, q, "I/O errors of the writer propagate (with-managed file, nothing swallowed)", not bad and not unmanaged)
         for b in bad:
             out.append(Finding("C31", "C31.c", E, q, " ".join(ast.unparse(b).split())[:90], "an exception raised while the output is written or closed is swallowed: a failed flush at close leaves a truncated file that is reported as generated and skipped by later runs", witness="OSError(ENOSPC) from the implicit flush in close()"))
